@@ -23,6 +23,7 @@ class Stats:
     def __init__(self):
         self.paths = self.infeasible = self.steps = self.queries = self.sat = self.unsat = self.unknown = 0
         self.solver_s = 0.0; self.decisions = 0; self.model_hits = 0
+        self.nontrivial_paths = 0      # feasible paths whose path condition holds at least one constraint over symbolic inputs
         self.fns = {}; self.models = {}
 
     def as_dict(self):
